@@ -27,9 +27,11 @@ class _Modules:
         self.mods = mods
         self.classes = {}
         self.funcs = {}
+        self.consts = {'': {}}
         for m in reversed(mods):
             self.classes.update(m.classes)
             self.funcs.update(m.funcs)
+            self.consts[''].update(m.consts.get('', {}))
 
     def _home(self, cname):
         for m in self.mods:
@@ -145,8 +147,14 @@ class Heap:
     def isinstance_(self, v, cname):
         if cname == 'tuple':
             return isinstance(v, tuple)
+        if cname == 'bytes':
+            return isinstance(v, bytes) or (isinstance(v, SStr) and getattr(self, 'bytes_mode', False))
         if cname == 'str':
+            if isinstance(v, SStr):
+                return not getattr(self, 'bytes_mode', False)
             return isinstance(v, (Key, str))
+        if cname in ('set', 'frozenset'):
+            return isinstance(v, (set, frozenset))
         if cname in ('int',):
             return isinstance(v, int) and not isinstance(v, bool)
         if not isinstance(v, Ref):
@@ -183,6 +191,28 @@ class Heap:
         fn = self.module.method(o['__class__'], attr) if o['__class__'] in self.module.classes else None
         if fn is not None:
             return Closure(fn.node, {}, ref, fn.cls)
+        # class-level variable (shared by all instances; a mutable one is one object)
+        if o['__class__'] in self.module.classes:
+            raw = attr[len('_' + (cur_cls or '').lstrip('_')):] if cur_cls and attr.startswith('_' + cur_cls.lstrip('_') + '__') else attr
+            for nm in (attr, raw, f):
+                node, c = self.module.class_const_node(o['__class__'], nm)
+                if node is None:
+                    continue
+                cv = self.__dict__.setdefault('class_vars', {})
+                if (c, nm) not in cv:
+                    if isinstance(node, ast.Constant):
+                        cv[(c, nm)] = node.value
+                    elif isinstance(node, ast.Call) and norm(node.func) in ('set', 'frozenset') and not node.args:
+                        cv[(c, nm)] = set()
+                    elif isinstance(node, ast.Set):
+                        cv[(c, nm)] = set()
+                    elif (isinstance(node, ast.Call) and norm(node.func) == 'dict' and not node.args) or (isinstance(node, ast.Dict) and not node.keys):
+                        cv[(c, nm)] = self.new_dict('@classvar_%s_%s' % (c, nm))
+                    elif (isinstance(node, ast.Call) and norm(node.func) == 'list' and not node.args) or (isinstance(node, ast.List) and not node.elts):
+                        cv[(c, nm)] = self.new_list([], '@classvar_%s_%s' % (c, nm))
+                    else:
+                        continue
+                return cv[(c, nm)]
         # class-level alias like `append = add`
         if o['__class__'] in self.module.classes:
             node, c = self.module.class_const_node(o['__class__'], attr)
@@ -198,32 +228,64 @@ class Heap:
         o[self.fld(attr, cur_cls)] = value
 
     # -- dicts
+    @staticmethod
+    def _kid(k):
+        """identity of a dictionary key: case-insensitive keys by their class, symbolic strings by structure"""
+        if isinstance(k, Key):
+            return ('key', k.cls)
+        if isinstance(k, SStr):
+            c = k.concrete()
+            return ('val', c) if c is not None else ('sym', k.key())
+        return ('val', k)
+
     def dict_get(self, dref, key, lineno=0):
+        kid = self._kid(key)
         for k, v in self.objs[dref.name]['entries']:
-            if k.cls == key.cls:
+            if self._kid(k) == kid:
                 return v
         raise Raised('KeyError', self.version, lineno)
 
     def dict_has(self, dref, key):
-        return any(k.cls == key.cls for k, v in self.objs[dref.name]['entries'])
+        kid = self._kid(key)
+        return any(self._kid(k) == kid for k, v in self.objs[dref.name]['entries'])
 
     def dict_set(self, dref, key, value):
         ent = self.objs[dref.name]['entries']
         self.touch(dref.name)
+        kid = self._kid(key)
         for i, (k, v) in enumerate(ent):
-            if k.cls == key.cls:
+            if self._kid(k) == kid:
                 ent[i] = (k, value)       # an existing key object is kept (first spelling)
                 return
         ent.append((key, value))
 
     def dict_del(self, dref, key, lineno=0):
         ent = self.objs[dref.name]['entries']
+        kid = self._kid(key)
         for i, (k, v) in enumerate(ent):
-            if k.cls == key.cls:
+            if self._kid(k) == kid:
                 self.touch(dref.name)
                 del ent[i]
                 return
         raise Raised('KeyError', self.version, lineno)
+
+
+_EXC_PARENTS = {'KeyError': 'LookupError', 'IndexError': 'LookupError', 'LookupError': 'Exception', 'ValueError': 'Exception', 'TypeError': 'Exception',
+                'AttributeError': 'Exception', 'StopIteration': 'Exception', 'AssertionError': 'Exception', 'UnicodeDecodeError': 'ValueError',
+                'UnicodeError': 'ValueError', 'OSError': 'Exception', 'IOError': 'Exception', 'NotImplementedError': 'RuntimeError', 'RuntimeError': 'Exception'}
+
+
+def _handler_matches(htype, exc):
+    if htype is None:
+        return True
+    names = [norm(e) for e in htype.elts] if isinstance(htype, ast.Tuple) else [norm(htype)]
+    chain = [exc, exc.split('.')[-1]]
+    cur = exc.split('.')[-1]
+    while cur in _EXC_PARENTS:
+        cur = _EXC_PARENTS[cur]
+        chain.append(cur)
+    chain += ['Exception', 'BaseException'] if 'Exception' not in chain else ['BaseException']
+    return any(n in chain or n.split('.')[-1] in chain for n in names)
 
 
 def _walk_fn(node):
@@ -245,6 +307,8 @@ class Interp:
         h = self.h
         if isinstance(v, (list, tuple)):
             return list(v)
+        if isinstance(v, (set, frozenset)):
+            return sorted(v, key=repr)
         if h.is_list(v):
             return list(h.items(v))
         if isinstance(v, Ref):
@@ -305,6 +369,8 @@ class Interp:
         return None
 
     def truth(self, v):
+        if isinstance(v, (set, frozenset)):
+            return bool(v)
         if isinstance(v, SStr):
             return v.truth()
         if isinstance(v, SInt):
@@ -330,6 +396,8 @@ class Interp:
     def ev(self, e, env, cls):
         h = self.h
         if isinstance(e, ast.Constant):
+            if isinstance(e.value, bytes) and getattr(h, 'symbolic_strings', False):
+                return e.value.decode('latin-1')
             return e.value
         if isinstance(e, ast.Name):
             if e.id in env:
@@ -340,7 +408,12 @@ class Interp:
                 return ('hook', e.id)
             if e.id in h.module.funcs:
                 return Closure(h.module.funcs[e.id].node, {}, None, None)
-            if e.id in ('tuple', 'str', 'int', 'list', 'dict') or (e.id[:1].isupper() and e.id not in env):
+            if e.id in h.module.consts.get('', {}) and isinstance(h.module.consts[''][e.id], (str, bytes, int, tuple, list, frozenset)):
+                v = h.module.consts[''][e.id]
+                if isinstance(v, bytes) and getattr(h, 'symbolic_strings', False):
+                    return v.decode('latin-1')
+                return h.new_list(list(v)) if isinstance(v, list) else v
+            if e.id in ('tuple', 'str', 'int', 'list', 'dict', 'bytes', 'set', 'frozenset') or (e.id[:1].isupper() and e.id not in env):
                 return ('class', e.id)
             raise AnalysisError('heap model: unbound name %s' % e.id)
         if isinstance(e, ast.Attribute):
@@ -376,6 +449,11 @@ class Interp:
                 else:
                     same = l == r
                 return same if isinstance(op, ast.Eq) else not same
+            if isinstance(op, (ast.In, ast.NotIn)) and isinstance(r, (set, frozenset)):
+                res = l in r
+                return res if isinstance(op, ast.In) else not res
+            if isinstance(op, (ast.In, ast.NotIn)) and isinstance(r, str) and isinstance(l, str):
+                return (l in r) if isinstance(op, ast.In) else (l not in r)
             if isinstance(op, (ast.In, ast.NotIn)) and (h.is_list(r) or isinstance(r, (list, tuple))):
                 items = h.items(r) if h.is_list(r) else list(r)
                 res = any((x == l) if not isinstance(l, Key) else (isinstance(x, Key) and x.cls == l.cls) for x in items)
@@ -464,6 +542,11 @@ class Interp:
             return h.new_list([self.ev(x, env, cls) for x in e.elts])
         if isinstance(e, ast.Dict) and not e.keys:
             return h.new_dict()
+        if isinstance(e, ast.Set):
+            items = [self.ev(x, env, cls) for x in e.elts]
+            if not all(isinstance(x, (str, int, tuple)) for x in items):
+                raise AnalysisError('heap model: set of non-constants')
+            return set(items)
         if isinstance(e, ast.UnaryOp) and isinstance(e.op, ast.USub):
             v = self.ev(e.operand, env, cls)
             if isinstance(v, int):
@@ -490,6 +573,8 @@ class Interp:
         kwargs = {k.arg: self.ev(k.value, env, cls) for k in e.keywords}
         if isinstance(fn, ast.Name) and fn.id in h.hooks:
             return h.hooks[fn.id](self, args, kwargs)
+        if isinstance(fn, ast.Attribute) and norm(fn) in h.hooks:
+            return h.hooks[norm(fn)](self, args, kwargs)
         if isinstance(fn, ast.Attribute) and ('.' + fn.attr) in h.hooks:
             base = self.ev(fn.value, env, cls)
             r = h.hooks['.' + fn.attr](self, [base] + args, kwargs)
@@ -509,6 +594,20 @@ class Interp:
             return any(h.isinstance_(args[0], nme.split('.')[-1]) for nme in names)
         if isinstance(fn, ast.Name) and fn.id in ('bool',) and len(args) == 1:
             return self.truth(args[0])
+        if isinstance(fn, ast.Name) and fn.id in ('set', 'frozenset') and len(args) <= 1 and fn.id not in env:
+            items = self.seq(args[0]) if args else []
+            if not all(isinstance(x, (str, int, tuple, Key, SStr)) for x in items):
+                raise AnalysisError('heap model: set of non-constants')
+            return set(items)
+        if isinstance(fn, ast.Attribute) and fn.attr in ('intersection', 'union', 'difference', 'add', 'discard', 'issubset', 'isdisjoint', 'copy', 'update', 'clear'):
+            base0 = self.ev(fn.value, env, cls)
+            if isinstance(base0, (set, frozenset)):
+                a2 = [set(self.seq(a)) if not isinstance(a, (str, int)) or fn.attr not in ('add', 'discard') else a for a in args]
+                return getattr(base0, fn.attr)(*a2)
+        if isinstance(fn, ast.Name) and fn.id == 'len' and len(args) == 1 and isinstance(args[0], (set, frozenset, dict, str)):
+            return len(args[0])
+        if isinstance(fn, ast.Name) and fn.id == 'sorted' and len(args) == 1 and not kwargs:
+            return self.h.new_list(sorted(self.seq(args[0])))
         if isinstance(fn, ast.Name) and fn.id == 'cast' and len(args) == 2:
             return args[1]
         if isinstance(fn, ast.Name) and fn.id == 'reversed' and len(args) == 1:
@@ -571,6 +670,8 @@ class Interp:
                         raise Raised('IndexError', h.version, e.lineno)
                     h.touch(base.name)
                     return items.pop(args[0] if args else -1)
+            if isinstance(base, str) and fn.attr == 'format' and getattr(h, 'symbolic_strings', False):
+                return self.sym_format_braces(base, args, kwargs)
             if isinstance(base, str):
                 return 'text'
         if isinstance(fn, ast.Name) and fn.id in h.module.classes:
@@ -661,8 +762,8 @@ class Interp:
                 res = r.contains(l)
             elif isinstance(r, str):
                 res = symstr.lift(l).member_of(r)
-            elif isinstance(r, (tuple, list)) or self.h.is_list(r):
-                res = symstr.lift(l).member_of(list(r) if isinstance(r, (tuple, list)) else list(self.h.items(r)))
+            elif isinstance(r, (tuple, list, set, frozenset)) or self.h.is_list(r):
+                res = symstr.lift(l).member_of(list(r) if isinstance(r, (tuple, list, set, frozenset)) else list(self.h.items(r)))
             else:
                 raise AnalysisError('heap model: comparison %s' % norm(e))
             return res if name == 'In' else not res
@@ -721,7 +822,7 @@ class Interp:
                     raise AnalysisError('heap model: not enough arguments for format string')
                 v = vals.pop(0)
                 if not isinstance(v, (str, SStr)):
-                    raise AnalysisError('heap model: %%s of a non-string')
+                    v = '<%s>' % type(v).__name__      # rendered text of other objects (only used in messages)
                 out.append(v)
             elif p == '%%':
                 out.append('%')
@@ -751,7 +852,7 @@ class Interp:
             else:
                 v = kwargs[field]
             if not isinstance(v, (str, SStr)):
-                raise AnalysisError('heap model: format of a non-string')
+                v = '<%s>' % type(v).__name__
             out.append(v)
         r = SStr(out)
         c = r.concrete()
@@ -817,7 +918,7 @@ class Interp:
                 return self.run(st.orelse, env, cls)
             except Raised as x:
                 for hd in st.handlers:
-                    if hd.type is None or norm(hd.type) in ('Exception', 'BaseException', x.exc):
+                    if _handler_matches(hd.type, x.exc):
                         try:
                             return self.run(hd.body, env, cls)
                         except Raised as y:
@@ -854,6 +955,9 @@ class Interp:
                     if r[0] == 'continue':
                         continue
                     return r
+            return None
+        if isinstance(st, ast.FunctionDef):
+            env[st.name] = Closure(st, env, None, cls)      # reads the enclosing variables at call time
             return None
         if isinstance(st, ast.Break):
             return ('break', None)
